@@ -6,7 +6,9 @@ cd /repo || exit 2
 if ! git diff --quiet; then echo "repo dirty, refusing"; exit 2; fi
 if ! git apply "$patch"; then echo "patch does not apply"; exit 2; fi
 cd /verif
-./run.sh check "$prop" "$tier" > /tmp/try_patch.out 2>&1
+# evidence and replay files of a mutant run must not overwrite the real ones
+scratch=/verif/sim/target/trypatch; mkdir -p $scratch; cp /verif/known_findings.txt $scratch/
+VERIF_ROOT_OVERRIDE=$scratch ./run.sh check "$prop" "$tier" > /tmp/try_patch.out 2>&1
 code=$?
 git -C /repo checkout -- .
 # rebuild so that the binary on disk never stays a mutant
